@@ -273,6 +273,14 @@ def _setup_store(w):
     f.drop()
     w.run(1e6)
     del w.conns["setup"]
+    # non-vacuity: the scenario's pre-stored events really are in the store
+    from ..store import decode_store
+    from ..env import HarnessError
+
+    have = decode_store(w.backend, w.dump())
+    missing = [e["id"][:8] for e in S_E + [S_K2] if e["id"] not in have]
+    if missing:
+        raise HarnessError("scenario setup did not store %r" % missing)
 
 
 SCENARIOS = {
